@@ -253,8 +253,8 @@ def setDim (st : State) (d : Nat) (r : DimRec) : State := { st with dims := st.d
 
 /-- one configuration change on one dimension record: `none` when the call does not exist for this
 kind; otherwise the record afterwards and the exception raised, if any (a refusal leaves the record
-as it was, with ONE exception the code has: `ticks = []` on a dimension without a `ticks` dataset
-fails in `write_data` (`data[0]`: IndexError) after an existing link was already removed) -/
+as it was; since `fix:` ef5752f the `ticks` setter converts to Double first and writes with an
+explicit dtype, so `ticks = []` is stored as an empty dataset whether or not one existed) -/
 def applyCfg (srcs : List Source) (r : DimRec) : Op → Option (DimRec × Option Err)
   | .setOffset _ v =>
     match r.cfg with
@@ -266,9 +266,8 @@ def applyCfg (srcs : List Source) (r : DimRec) : Op → Option (DimRec × Option
     | _ => none
   | .setTicks _ t =>
     match r.cfg with
-    | .range st _ =>
+    | .range _ _ =>
       if !ascendingB t then some (r, some .valueError)
-      else if t.isEmpty && st.isNone then some ({ r with cfg := .range none none }, some .indexError)
       else some ({ r with cfg := .range (some t) none }, none)
     | _ => none
   | .setLabels _ n =>
